@@ -43,28 +43,7 @@ def table_cfg(kind: str, n: int, alphabet, lo: int, hi: int, emit: bool, stride=
                                                  "DecodedLinksAcyclic", "Emit"])
 
 
-class Hang(Exception):
-    pass
-
-
-def _alarm(signum, frame):
-    raise Hang()
-
-
-def with_watchdog(fn, seconds: float = 2.0):
-    """run fn(); raise Hang when it has used `seconds` of CPU time (ITIMER_PROF: the verdict does not depend on how loaded the
-    machine is) or, for a hang that burns no CPU, after a generous wall-clock time"""
-    old_p = signal.signal(signal.SIGPROF, _alarm)
-    old_a = signal.signal(signal.SIGALRM, _alarm)
-    signal.setitimer(signal.ITIMER_PROF, seconds)
-    signal.setitimer(signal.ITIMER_REAL, max(120.0, 30.0 * seconds))
-    try:
-        return fn()
-    finally:
-        signal.setitimer(signal.ITIMER_PROF, 0)
-        signal.setitimer(signal.ITIMER_REAL, 0)
-        signal.signal(signal.SIGPROF, old_p)
-        signal.signal(signal.SIGALRM, old_a)
+from ..repo import Hang, with_watchdog  # noqa: E402,F401  (shared CPU-time watchdog)
 
 
 # ---- driving the real code ------------------------------------------------------------------
